@@ -132,6 +132,7 @@ TABLE = {
     'obj_raise_order': ([q, obj, natlist], 'q_obj_raise_order {0} {1} {2}', res(obj)),
     'obj_lower_order': ([q, obj, natlist], 'q_obj_lower_order {0} {1} {2}', res(obj)),
     'solve': ([lst(qlist), lst(qlist)], 'q_solve {0} {1}', res(lst(qlist))),
+    'obj_append': ([q, obj, obj], 'q_obj_append {0} {1} {2}', res(obj)),
     'obj_split': ([q, obj, nat, qlist], 'q_obj_split {0} {1} {2} {3}', res(lst(obj))),
     'obj_make_periodic': ([obj, zint, nat], 'q_obj_make_periodic {0} {1} {2}', res(obj)),
     'obj_lower_periodic': ([obj, nat, nat], 'q_obj_lower_periodic {0} {1} {2}', res(obj)),
@@ -173,7 +174,7 @@ def render(line, out):
     return '(ceq (%s) (%s))' % (templ.format(*args), exp)
 
 
-HEAVY = {'obj_raise_order', 'obj_lower_order', 'solve', 'curve_interpolate', 'curve_lsq', 'obj_split', 'obj_make_periodic',
+HEAVY = {'obj_append', 'obj_raise_order', 'obj_lower_order', 'solve', 'curve_interpolate', 'curve_lsq', 'obj_split', 'obj_make_periodic',
          'obj_lower_periodic', 'basis_integrate', 'obj_center'}
 
 
